@@ -16,40 +16,69 @@ func c05any(name string) Packet {
 
 func VH_C05_PacketReaders() {
 	vrt.SetUnwind(400, true)
+	op := vrt.Choose("op", 0, 6)
 	p := c05any("p")
 	orig := p
-	_, _ = Payload(&p)
-	_ = Header(&p)
-	_, _ = PESHeader(&p)
-	_, _ = p.Payload()
-	_ = p.CheckErrors()
-	_ = p.IsNull()
-	_ = p.IsPAT()
-	_ = Equal(&p, &orig)
+	switch op {
+	case 0:
+		_, _ = Payload(&p)
+	case 1:
+		_ = Header(&p)
+	case 2:
+		_, _ = PESHeader(&p)
+	case 3:
+		_, _ = p.Payload()
+	case 4:
+		_ = p.CheckErrors()
+		_ = p.IsNull()
+		_ = p.IsPAT()
+		_ = Equal(&p, &orig)
+	case 5:
+		b := make([]byte, []int{0, 1, 187, 188, 189}[vrt.Choose("len", 0, 4)])
+		vrt.Bytes("b", b)
+		_, _ = FromBytes(b)
+	case 6:
+		_ = IncrementCC(&p)
+		_ = ZeroCC(&p)
+		_ = SetCC(&p, vrt.Byte("cc"))
+	}
 	vrt.Assert(p == orig, "read-only packet operations never modify the packet")
 	vrt.Reach("end")
 }
 
 func VH_C05_AFGetters() {
 	vrt.SetUnwind(400, true)
+	op := vrt.Choose("op", 0, 8)
 	p := c05any("p")
 	orig := p
 	af, err := p.AdaptationField()
 	if err == nil && af != nil {
-		_ = af.Length()
-		_, _ = af.Discontinuity()
-		_, _ = af.RandomAccess()
-		_, _ = af.ElementaryStreamPriority()
-		_, _ = af.HasPCR()
-		_, _ = af.PCR()
-		_, _ = af.HasOPCR()
-		_, _ = af.OPCR()
-		_, _ = af.HasSplicingPoint()
-		_, _ = af.SpliceCountdown()
-		_, _ = af.HasTransportPrivateData()
-		_, _ = af.TransportPrivateData()
-		_, _ = af.HasAdaptationFieldExtension()
-		_, _ = af.AdaptationFieldExtension()
+		switch op {
+		case 0:
+			_ = af.Length()
+			_, _ = af.Discontinuity()
+			_, _ = af.RandomAccess()
+			_, _ = af.ElementaryStreamPriority()
+		case 1:
+			_, _ = af.HasPCR()
+			_, _ = af.PCR()
+		case 2:
+			_, _ = af.HasOPCR()
+			_, _ = af.OPCR()
+		case 3:
+			_, _ = af.HasSplicingPoint()
+			_, _ = af.SpliceCountdown()
+		case 4:
+			_, _ = af.HasTransportPrivateData()
+		case 5:
+			_, _ = af.TransportPrivateData()
+		case 6:
+			_, _ = af.HasAdaptationFieldExtension()
+		case 7:
+			_, _ = af.AdaptationFieldExtension()
+		case 8:
+			_ = NewAdaptationField()
+		}
 	}
 	vrt.Assert(p == orig, "adaptation-field getters never modify the packet")
 	vrt.Reach("end")
